@@ -13,6 +13,8 @@ import U3.Lemmas.RespCalls
 import U3.Lemmas.RespReadChunked
 import U3.Lemmas.RespIter
 import U3.Lemmas.RespWitness
+import U3.Lemmas.RespDrain
+import U3.Lemmas.RespDrainWitness
 /-!
 # C12 — every way of reading a response yields the same bytes
 
@@ -771,6 +773,92 @@ example :
     let s1 := read hSrc cdDec cfgZstdAA r0 (some 1) (some true)
     (stream hSrc cdDec cfgZstdAA s1.2 none (some true)).1 = ([lit "a"], none) ∧
     (stream hSrc cdDec cfgZstdAA r0 (some 1) (some true)).1 = ([lit "a", lit "a"], none) := by
+  decide +kernel
+
+/-- **`C12_drain_leaves_nothing`**: `drain_conn()` (= `read()` with the result thrown away and
+urllib3 / socket errors swallowed) called at ANY point of a well-framed body — also with decoded
+bytes waiting in the buffer after partial reads — returns without an exception and leaves the
+response at its end: every later call of the `read` / `read1` family, in any interleaving, returns
+b"".  For ANY source obeying the read specs and ANY decoder obeying the streaming law (or none). -/
+theorem C12_drain_leaves_nothing {σ δ : Type} (S : Src σ) (D : Dec δ) (cfg : Cfg δ)
+    {rem : σ → Bytes} {I : σ → Option Int → Prop} {G : δ → Bytes → Bytes → Prop}
+    (hR : RawReadSpec S cfg rem I) (hA : RawReadAllSpec S cfg rem I) (hR1 : RawRead1Spec S cfg rem I)
+    (hD : StreamLaw D G) (hdef : cfg.decodeDefault = true)
+    (dco : Option Bool) (hdc : dco.getD cfg.decodeDefault = true)
+    (r : R σ δ) (rest : Bytes) (hinv : Inv cfg rem I G r rest) (hfuel : 1 < cfg.fuel) :
+    ∃ r', drainConn S D cfg r = (.ok (), r') ∧ Inv cfg rem I G r' [] ∧
+      ∀ tail : List RCall, ∃ outs r'', callSeq S D cfg dco tail r' = (.ok outs, r'') ∧
+        outs.length = tail.length ∧ outs.flatten = [] := by
+  obtain ⟨r', h1, hinv', hrem⟩ := drainConn_spec S D cfg hA hD hdef r rest hinv
+  refine ⟨r', h1, hinv', fun tail => ?_⟩
+  obtain ⟨outs, r'', rest', e1, _, e3, e4, _⟩ :=
+    callSeq_concat S D cfg hR hA hR1 hD dco hdc tail r' [] hinv' (by rw [hrem]; simpa using hfuel)
+  exact ⟨outs, r'', e1, e4, (List.append_eq_nil_iff.mp e3).1⟩
+
+/-- … and with `decode_content=False` throughout (`RawInv`: nothing decoded so far) -/
+theorem C12_drain_leaves_nothing_raw {σ δ : Type} (S : Src σ) (D : Dec δ) (cfg : Cfg δ)
+    {rem : σ → Bytes} {I : σ → Option Int → Prop}
+    (hR : RawReadSpec S cfg rem I) (hA : RawReadAllSpec S cfg rem I) (hR1 : RawRead1Spec S cfg rem I)
+    (hdef : cfg.decodeDefault = false) (dco : Option Bool) (hdc : dco.getD cfg.decodeDefault = false)
+    (r : R σ δ) (raw : Bytes) (hinv : RawInv rem I r raw) :
+    ∃ r', drainConn S D cfg r = (.ok (), r') ∧ RawInv rem I r' [] ∧
+      ∀ tail : List RCall, ∃ outs r'', callSeq S D cfg dco tail r' = (.ok outs, r'') ∧
+        outs.length = tail.length ∧ outs.flatten = [] := by
+  obtain ⟨r', h1, hinv'⟩ := drainConn_spec_raw S D cfg hA hdef r raw hinv
+  refine ⟨r', h1, hinv', fun tail => ?_⟩
+  obtain ⟨outs, r'', raw', e1, _, e3, e4⟩ := callSeq_concat_raw S D cfg hR hA hR1 dco hdc tail r' [] hinv'
+  exact ⟨outs, r'', e1, e4, (List.append_eq_nil_iff.mp e3).1⟩
+
+/-- **`C12_drain_after_calls`** — `drain_conn()` after any interleaving, for responses read through
+`http.client` with urllib3's decoders, decoding on (the domain of `C12_concat`):
+(a) Content-Length / close-delimited framing: after EVERY interleaving of `read()`, `read(0)`,
+`read(n)`, `read1()`, `read1(n)`, `readinto(k)`, `stream(n)`, `stream(None)` and iteration;
+(b) chunked framing: after every interleaving of the `read` / `read1` family (`drain_conn` is `read()`:
+`http.client`'s chunk reader);
+`drain_conn()` returns without an exception and every later `read` / `read1` call returns b"". -/
+theorem C12_drain_after_calls (cfg : Cfg CD) (r : R H CD) (payload : Bytes) (hdef : cfg.decodeDefault = true) :
+    (cfg.chunked = false → Inv cfg hRem HI CDGall r payload →
+      2 * payload.length + 1 < cfg.fuel → (hRem r.fp).length + 1 < cfg.fuel →
+      ∀ calls : List Call, (∀ c ∈ calls, c ≠ .stream (some 0)) →
+        ∃ pss r' r'', callSeqG hSrc cdDec cfg (some true) calls r = ((pss, none), r') ∧
+          drainConn hSrc cdDec cfg r' = (.ok (), r'') ∧
+          ∀ tail : List RCall, ∃ outs r3, callSeq hSrc cdDec cfg (some true) tail r'' = (.ok outs, r3) ∧
+            outs.length = tail.length ∧ outs.flatten = []) ∧
+    (Inv cfg cRem CI CDGall r payload → (cRem r.fp).length + 1 < cfg.fuel →
+      ∀ calls : List RCall,
+        ∃ outs r' r'', callSeq hSrc cdDec cfg (some true) calls r = (.ok outs, r') ∧
+          drainConn hSrc cdDec cfg r' = (.ok (), r'') ∧
+          ∀ tail : List RCall, ∃ outs' r3, callSeq hSrc cdDec cfg (some true) tail r'' = (.ok outs', r3) ∧
+            outs'.length = tail.length ∧ outs'.flatten = []) := by
+  have hdc : (some true : Option Bool).getD cfg.decodeDefault = true := rfl
+  refine ⟨fun hnc hinv hfS hf calls hcs => ?_, fun hinv hf calls => ?_⟩
+  · obtain ⟨pss, r', rest', h1, hinv', _, _⟩ :=
+      callSeqG_concat hSrc cdDec cfg (hSrc_rawReadSpec cfg) (hSrc_rawReadAllSpec cfg) (hSrc_rawRead1Spec cfg)
+        cdDec_streamLaw (hSrc_closesN cfg) (hSrc_closesAll cfg) hSrc_closedNil (some true) hdc hdef hnc
+        calls r payload hcs hinv hfS hf
+    obtain ⟨r'', h2, _, h3⟩ := C12_drain_leaves_nothing hSrc cdDec cfg (hSrc_rawReadSpec cfg)
+      (hSrc_rawReadAllSpec cfg) (hSrc_rawRead1Spec cfg) cdDec_streamLaw hdef (some true) hdc r' rest' hinv' (by omega)
+    exact ⟨pss, r', r'', h1, h2, h3⟩
+  · obtain ⟨outs, r', rest', h1, hinv', _, _, _⟩ :=
+      callSeq_concat hSrc cdDec cfg (hSrc_rawReadSpec_chunked cfg) (hSrc_rawReadAllSpec_chunked cfg)
+        (hSrc_rawRead1Spec_chunked cfg) cdDec_streamLaw (some true) hdc calls r payload hinv hf
+    obtain ⟨r'', h2, _, h3⟩ := C12_drain_leaves_nothing hSrc cdDec cfg (hSrc_rawReadSpec_chunked cfg)
+      (hSrc_rawReadAllSpec_chunked cfg) (hSrc_rawRead1Spec_chunked cfg) cdDec_streamLaw hdef (some true) hdc
+      r' rest' hinv' (by omega)
+    exact ⟨outs, r', r'', h1, h2, h3⟩
+
+/-- non-vacuity (hypotheses: the gzip response "hello" with a Content-Length and in chunks), and what
+the model computes: `read(2)`, `drain_conn()`, then `read(5)` / `read1()` / `read()` return b"" -/
+example : Inv cfgGzipHello hRem HI CDGall respGzipHello (lit "hello") := inv_gzipHello
+example : Inv cfgGzipChunked cRem CI CDGall respChunkedGzipHello (lit "hello") := inv_chunkedGzipHello
+example : RawInv hRem HI respGzipHello gzipHello := rawInv_gzipHello
+
+example :
+    let s1 := read hSrc cdDec cfgGzipChunked respChunkedGzipHello (some 2) (some true)
+    let s2 := drainConn hSrc cdDec cfgGzipChunked s1.2
+    out s1 = some (lit "he") ∧ err s2 = none ∧
+    out (callSeq hSrc cdDec cfgGzipChunked (some true) [.read (some 5), .read1 none, .read none] s2.2) =
+      some [[], [], []] := by
   decide +kernel
 
 /-- the chunk-parser round trip `dechunk (enchunk cs) = cs`: urllib3's `read_chunked` loop
